@@ -22,7 +22,7 @@ from acnportal.signals.tariffs import tou_tariff as TT
 from acnportal.signals.tariffs.tou_tariff import TimeOfUseTariff
 from acnportal import acnsim
 
-from mc.core import Acc
+from mc.core import Acc, guard
 from mc import simspace as S
 
 ID = "C17"
@@ -287,6 +287,7 @@ def run_vector(item, only=None):
                 try:
                     got = tariff.get_tariffs(st, length, period)
                 except Exception as exc:
+                    guard(exc)
                     rep("vector:exception:%s" % type(exc).__name__, "%s: get_tariffs(%s, %d, %d) raised %r" % (f, st, length, period, exc), repr(exc), None, ctx)
                     continue
                 if list(got) != ref:
@@ -361,6 +362,7 @@ def run_sim(item, only=None):
                 try:
                     sim.run()
                 except Exception as exc:
+                    guard(exc)
                     n_amb = [ref_lookup(f, st + timedelta(minutes=period * k))[2] for k in range(14)]
                     if any(x != 1 for x in n_amb):
                         continue  # totality problem, reported by the lookup block
